@@ -445,8 +445,8 @@ Ltac xsub_view := cbn [view_xsub VXsub.view v_clones v_dups v_rx]; unfold no_rx,
 Lemma xsub_law_sum mf rf s o s' outs : xsub_step mf rf s o = (s', outs) -> law_sum view_xsub s o s' outs.
 Proof.
   intros H F. cbv zeta.
-  change (v_extra view_xsub s o outs) with (@nil pmsg). cbn [map]. rewrite app_nil_r.
   change (v_clones view_xsub s o ++ v_dups view_xsub s o) with (@nil key). rewrite wsum_nil.
+  change (v_extra view_xsub s o outs) with (@nil pmsg). cbn [map]. rewrite app_nil_r.
   rewrite !xsub_w_omega.
   destruct o as [k a nb m|k a nb|a rv|p peer|p|p rv|p rv m|k op|k|k| |now]; cbn [xsub_step] in H.
   - (* PSend: not supported, the message stays the caller's *)
@@ -461,9 +461,9 @@ Proof.
     nosend view_xsub. cbn [op_add op_del]. destruct (has_id a (xs_rq s)); inversion H; subst; simp_x; cbn; ufl.
   - nosend view_xsub. cbn [op_add op_del]. destruct (negb _); inversion H; subst; cbn; ufl.
   - nosend view_xsub. inversion H; subst. cbn. ufl.
-  - nosend view_xsub. inversion H; subst. cbn. ufl.
+  - nosend view_xsub. inversion H; subst. cbn. wnorm. destruct (rv =? 0)%N; ufl.
   - (* PRecvDone: nni_msgq_tryput *)
-    nosend view_xsub. xcbn [op_add op_del]. sub_view.
+    nosend view_xsub. cbn [op_add op_del]. xsub_view.
     destruct (N.eqb_spec rv 0) as [->|Hrv]; cbn [negb] in H; [|inversion H; subst; cbn; ufl].
     destruct (xs_closed s); [inversion H; subst; cbn; ufl|].
     destruct (xs_rq s) as [|a rest].
